@@ -26,8 +26,10 @@ TECHNIQUE = (
     "runtime monitoring of real processes: each run executes BaseCommand.entry_point() of a harness AsyncScript / Scanner / "
     "UDSScanner (the latter two against a virtual ECU on a unix-lines socket inside the same child) with one injected exit "
     "kind at one lifecycle point; the parent observes exit status, META.json, the run_meta row (sqlite3), log.json.zst "
-    "(zstd frame completeness + PenlogReader), flock state and the environment dumped by the hook scripts, and compares them "
-    "with the documented mapping"
+    "(zstd frame completeness + PenlogReader; once as the file is after the process ended and once as the copy the child took the "
+    "moment entry_point() returned or raised, before the interpreter's own logging.shutdown() could close anything), flock state "
+    "and the environment dumped by the hook scripts, and compares them with the documented mapping. UDS scanner runs get an OEM-style "
+    "ECU class (gallia.command.uds.load_ecu replaced in the child) whose properties() sends ReadDataByIdentifier requests"
 )
 LEVEL_TEXT = (
     "Fault enumeration: command kind x exit kind x lifecycle point is enumerated completely in both tiers (3 x (1 + 9 x 5) = "
@@ -35,7 +37,8 @@ LEVEL_TEXT = (
     "lock file chosen by a seeded greedy covering array (all factor pairs plus selected triples), then about 30 rows with a "
     "failing pre- or post-hook until every pair with a failing hook is covered (about 166 runs), plus 6 runs (thorough: 48) on a "
     "shared database whose write lock a second writer (the harness, stdlib sqlite3, BEGIN IMMEDIATE) holds for 2.5-4 s from "
-    "right before the command finishes. Thorough: every combination "
+    "right before the command finishes, plus 6 runs (thorough: 32) of the UDS scanner whose ECU answers in setup and main and fails "
+    "only for the properties read of UDSScanner.teardown (ECU silent / ECU closes the connection). Thorough: every combination "
     "x all 8 resource settings x 5 hook pairs (a rotating diagonal of the non-failing 3x3 hook square, one failing pre-hook, "
     "one failing post-hook; 5520 runs; VERIF_C15_FULL=1 runs all 25 hook pairs). One fault per run; held means held for the "
     "runs executed. A child that exceeds the watchdog is re-run; it is a finding only if it hangs again and the thread stacks "
@@ -54,7 +57,10 @@ RULE = (
     "silent), failnoisy (output + exit 1), noisy (>64 KiB output)} x artifacts dir on/off x database on/off x lock file "
     "on/off; kind x exit x point is the full product, the other factors follow a seeded covering array (quick) or the full "
     "resource product with 5 of the 25 hook pairs (thorough); a separate family adds (kind) x (8 endings) with the database on "
-    "and a second writer holding the database's write lock while the command finishes; non-trivial = anything but a fault-free run without hooks and "
+    "and a second writer holding the database's write lock while the command finishes; a third family is (UDS scanner) x (point "
+    "'teardown_props': the request that ecu.properties() sends inside UDSScanner.teardown) x (fault in {ECU silent from the start of "
+    "teardown on, ECU closes the connection at the first request of teardown}) x (request timeout, retries) x resources x non-failing hooks; "
+    "non-trivial = anything but a fault-free run without hooks and "
     "resources; distinct = distinct case tuples"
 )
 ASSUMPTIONS = [
@@ -63,6 +69,10 @@ ASSUMPTIONS = [
     "SystemExit with a string argument may end with 1 (Python's convention) or 70; the recorded codes must still agree with the process",
     "a real SIGINT may end the process with status 130 or by SIGINT itself; META.json / run_meta must say 130 in both cases",
     "whether the post-hook runs after a real SIGINT is not decided (the statement does not say)",
+    "'the compressed log is closed' is the command's job: it is judged on the file as it is when entry_point() returns or raises (the child copies "
+    "it at that moment), not only on what the interpreter's logging.shutdown() atexit hook leaves behind when the process ends",
+    "a missing response or a connection closed by the ECU while UDSScanner.teardown reads the ECU properties is an expected UDS/connection error: "
+    "exit code 74 (judged only if the virtual ECU really saw a ReadDataByIdentifier request after it was told to fail)",
     "one fault per run; database-open failures are not injected; dumpcap is disabled",
     "config equality is decided on the JSON dump of the re-created CONFIG_TYPE (TargetURI has no __eq__)",
     "the database may be shared with other writers: a write lock held by somebody else for up to 6 s (the handler's busy timeout is 10 s) "
@@ -101,6 +111,13 @@ CONTEND_LOCK_TIMEOUT = 3.0
 CONTEND_ENDS = [("return", "none"), ("exit3", "main"), ("connerr", "main"), ("runtime", "teardown_post"), ("kbdint", "teardown_pre"),
                 ("sigint", "main"), ("udserr", "setup_post"), ("exit1", "setup_pre")]
 CONTEND_KEY = "run_meta/end_time-null/database-locked-by-other-writer"
+# ---- "ECU fails only for the properties read of UDSScanner.teardown" family (spec["point"] == TDPROPS_POINT, uds kind only)
+TDPROPS_POINT = "teardown_props"
+TDPROPS_EXITS = ["ecusilent", "ecureset"]  # the ECU stops answering / closes the connection at the next request
+TDPROPS_COND = "teardown-properties-error"
+PROPS_DIDS = [0xF186, 0xF190]  # what the harness ECU class reads in properties()
+# set by the fault injector (main thread), read by the virtual ECU (its own thread): "answer" | "silent" | "reset"
+ECU_CTL: dict[str, str] = {"mode": "answer"}
 
 HOOK_SH = r"""#!/bin/sh
 # C15 hook: dump the environment, probe the lock file, then behave as told by $1
@@ -269,6 +286,27 @@ def gen_contend(tier: str, seed: int, first_id: int) -> list[dict[str, Any]]:
     return rows
 
 
+def gen_tdprops(tier: str, seed: int, first_id: int) -> list[dict[str, Any]]:
+    """UDS scanner runs whose ECU answers during setup and main and fails only when UDSScanner.teardown reads the ECU
+    properties: quick 6 (both fault flavours x three resource settings, artifacts dir and database each on in four),
+    thorough both flavours x all 8 resource settings x retries {0, 1}. Hooks never failing."""
+    import itertools
+    import random
+
+    rng = random.Random(f"C15/tdprops/{tier}/{seed}")
+    if tier == "quick":
+        res = [(True, True, True), (True, True, False), (True, False, True), (False, True, False), (True, True, False), (False, True, True)]
+        res = res[seed % 6:] + res[:seed % 6]
+        combos = [(TDPROPS_EXITS[i % 2], r, (i // 2 + seed) % 2) for i, r in enumerate(res)]
+    else:
+        combos = [(e, r, n) for e in TDPROPS_EXITS for r in itertools.product([False, True], repeat=3) for n in (0, 1)]
+    rows = []
+    for i, (e, (art, db, lock), retries) in enumerate(combos):
+        rows.append({"kind": "uds", "exit": e, "point": TDPROPS_POINT, "pre": rng.choice(["none", "ok"]), "post": rng.choice(["none", "ok", "noisy"]),
+                     "art": art, "db": db, "lock": lock, "uds_timeout": rng.choice([0.6, 0.8, 1.0]), "uds_retries": retries, "id": first_id + i})
+    return rows
+
+
 def shards(tier: str, seed: int) -> list[dict[str, Any]]:
     n = 16
     cases = gen_cases(tier, seed)
@@ -277,8 +315,12 @@ def shards(tier: str, seed: int) -> list[dict[str, Any]]:
         raise RuntimeError(f"C15 covering array misses {len(missing)} pairs, e.g. {missing[:3]}")
     out = [{"tier": tier, "seed": seed, "cases": cases[i::n]} for i in range(n)]
     # the contended runs cost real seconds: spread them over the shards and start them first, next to the other children
-    for j, c in enumerate(gen_contend(tier, seed, len(cases))):
+    contend = gen_contend(tier, seed, len(cases))
+    for j, c in enumerate(contend):
         out[(j * 5 + seed) % n]["cases"].insert(0, c)
+    # so do the runs whose ECU falls silent in teardown (one request timeout each, times the retries)
+    for j, c in enumerate(gen_tdprops(tier, seed, len(cases) + len(contend))):
+        out[(j * 5 + seed + 2) % n]["cases"].insert(0, c)
     return out
 
 
@@ -297,6 +339,14 @@ def required_reach(tier: str) -> dict[str, int]:
     # second writer on the shared database: runs whose end really overlapped the foreign write lock, and (evidence that the
     # lock is the one the command needs) runs that could only finish after the lock was released
     need.update({"contend.judged": 2 if tier == "quick" else 12, "contend.finished_only_after_release": 2 if tier == "quick" else 12})
+    # the log file as the command leaves it (copied by the child when entry_point() ended), in particular after a real Ctrl-C
+    need.update({"log.checked_at_entry_point_end": 20, "log.checked_at_entry_point_end.real-sigint": 3 if tier == "quick" else 20,
+                 "log.handlers_checked_at_entry_point_end": 40})
+    # ECU failing only for the properties read in UDSScanner.teardown: runs in which the ECU really saw (and dropped / hung up on)
+    # a ReadDataByIdentifier request after the switch, per flavour, and such runs with a META.json / run_meta row to compare
+    k = 2 if tier == "quick" else 10
+    need.update({"tdprops.exercised.ecusilent": k, "tdprops.exercised.ecureset": k, "tdprops.meta_checked": k, "tdprops.run_meta_checked": k,
+                 "ecu.properties_requests_answered": 5})
     return need
 
 
@@ -328,6 +378,9 @@ def config_kwargs(spec: dict[str, Any], rundir: Path) -> dict[str, Any]:
         kw["dumpcap"] = False
     if spec["kind"] == "uds":
         kw["tester_present_interval"] = 0.2
+        if spec.get("uds_timeout") is not None:
+            kw["timeout"] = spec["uds_timeout"]
+            kw["max_retries"] = spec.get("uds_retries", 0)
     return kw
 
 
@@ -337,12 +390,21 @@ _DEFINED = False
 def define_commands() -> None:
     """Create the harness command classes as attributes of *this* module, so that run_meta.command
     ('vf.checks.c15.C15Script', ...) can be resolved the way gallia's Rerunner does it."""
-    global _DEFINED, C15Script, C15Scanner, C15UDSScanner, C15ScriptConfig, C15ScannerConfig, C15UDSScannerConfig
+    global _DEFINED, C15Script, C15Scanner, C15UDSScanner, C15ScriptConfig, C15ScannerConfig, C15UDSScannerConfig, C15ECU
     if _DEFINED:
         return
     import gallia.command  # noqa: F401  (before gallia.plugins.plugin: circular import otherwise)
     from gallia.command.base import AsyncScript, AsyncScriptConfig, Scanner, ScannerConfig
     from gallia.command.uds import UDSScanner, UDSScannerConfig
+    from gallia.services.uds.ecu import ECU, ECUProperties
+
+    class C15ECU(ECU):  # type: ignore[no-redef]
+        """An OEM-style client: reading the properties talks to the ECU (the generic ECU.properties() sends nothing)."""
+
+        async def properties(self, fresh: bool = False, config: Any = None) -> Any:
+            for did in PROPS_DIDS:
+                await self.read_data_by_identifier(did, config=config)
+            return ECUProperties()
 
     class C15ScriptConfig(AsyncScriptConfig):  # type: ignore[no-redef]
         c15_note: str = "c15"
@@ -445,6 +507,15 @@ class Injector:
         if point == "main" and spec["kind"] == "uds":
             resp = await cmd.ecu.ping()
             self.event(f"ecu_answered {type(resp).__name__}")
+        if spec["point"] == TDPROPS_POINT and point == "teardown_pre":
+            # the fault of this run is not raised here: from now on the ECU fails, and the first code that needs an answer
+            # is the properties read inside UDSScanner.teardown (the transport is still open)
+            self.probe_lock("lock-at-fault")
+            log.info(marker(spec))
+            self.event("fault")
+            ECU_CTL["mode"] = "silent" if spec["exit"] == "ecusilent" else "reset"
+            self.event(f"ecu_mode {ECU_CTL['mode']}")
+            return
         fire = spec["point"] == point or (spec["exit"] == "return" and point == "main")
         if not fire:
             return
@@ -506,20 +577,34 @@ def start_ecu(sock: Path, out: Path) -> None:
         await server.setup()
         tr = UDSServerTransport(server, TargetURI(f"unix-lines://{sock}"))
         count = 0
+        rdbi = 0
+        faulted = [0, 0]  # requests / ReadDataByIdentifier requests that met the ECU in "silent" or "reset" mode
 
         async def handle(reader: asyncio.StreamReader, writer: asyncio.StreamWriter) -> None:
-            nonlocal count
+            nonlocal count, rdbi
             try:
                 while True:
                     line = await reader.readline()
                     if not line:
                         break
-                    pdu, _ = await tr.handle_request(unhexlify(line.strip()))
+                    req = unhexlify(line.strip())
+                    mode = ECU_CTL["mode"]
+                    if mode != "answer":
+                        faulted[0] += 1
+                        faulted[1] += req[:1] == b"\x22"
+                        (out / "ecu-faulted").write_text(f"{faulted[0]} {faulted[1]}")
+                        if mode == "reset":
+                            break  # hang up: the tester reads EOF / gets a reset
+                        continue  # silent: the request is dropped
+                    pdu, _ = await tr.handle_request(req)
                     if pdu is not None:
                         writer.write(hexlify(pdu) + b"\n")
                         await writer.drain()
                         count += 1
                         (out / "ecu-answers").write_text(str(count))
+                        if req[:1] == b"\x22":
+                            rdbi += 1
+                            (out / "ecu-rdbi-answers").write_text(str(rdbi))
             except Exception:
                 pass
             finally:
@@ -540,6 +625,35 @@ def start_ecu(sock: Path, out: Path) -> None:
     if not ready.wait(20) or err:
         print(f"c15 harness: virtual ECU did not start: {err!r}", file=sys.stderr)
         os._exit(97)
+
+
+def observe_entry_point_end(cmd: Any, out: Path) -> None:
+    """What the command itself left behind, taken in the child the moment entry_point() returned or raised (after
+    asyncio.run() is done, before the interpreter's atexit hooks run: logging.shutdown() closes every handler that is
+    still open and would make a log file the command never closed look fine after the process ended)."""
+    import logging
+    import shutil
+
+    try:
+        d: dict[str, Any] = {
+            "log_file_handlers_left": len(getattr(cmd, "log_file_handlers", []) or []),
+            # setup_logging(logger_name="") puts the console handler on the root logger; on "gallia" only add_zst_log_handler() attaches one
+            "queue_handlers_on_gallia": sum(1 for h in logging.getLogger("gallia").handlers if type(h).__name__ == "QueueHandler"),
+            "log_copied": False,
+        }
+        ad = getattr(cmd, "artifacts_dir", None)
+        if ad is not None:
+            lf = Path(ad) / "log.json.zst"
+            d["log_exists"] = lf.exists()
+            if lf.exists():
+                shutil.copyfile(lf, out / "log-at-entry-point-end.zst")
+                d["log_copied"] = True
+        (out / "entry-point-end.json").write_text(json.dumps(d))
+    except BaseException as e:  # noqa: BLE001  (observing must never change how the child ends)
+        try:
+            (out / "entry-point-end.error").write_text(repr(e))
+        except OSError:
+            pass
 
 
 def child_main(specfile: str) -> None:
@@ -571,12 +685,19 @@ def child_main(specfile: str) -> None:
         start_ecu(paths["sock"], paths["out"])
     config = build_config(spec, rundir)
     cls = globals()[CLASS_NAMES[spec["kind"]]]
+    if spec["kind"] == "uds":
+        import gallia.command.uds as guds
+
+        guds.load_ecu = lambda vendor: C15ECU  # type: ignore[assignment]
     cmd = cls(config)
     inj = Injector(spec, rundir)
     cmd.injector = inj
     (paths["out"] / "started").write_text(config.model_dump_json())
     try:
-        rc = asyncio.run(cmd.entry_point())
+        try:
+            rc = asyncio.run(cmd.entry_point())
+        finally:
+            observe_entry_point_end(cmd, paths["out"])
         (paths["out"] / "returned").write_text(json.dumps(rc))
     except BaseException as e:
         frames = traceback.extract_tb(e.__traceback__)
@@ -620,6 +741,34 @@ def zstd_closed(path: Path) -> tuple[bool, int]:
             return False, total
         data = o.unused_data
     return True, total
+
+
+def analyze_log(lf: Path, spec: dict[str, Any]) -> dict[str, Any]:
+    """size, zstd completeness and a full PenlogReader pass over one log file (or a copy of it)"""
+    log: dict[str, Any] = {"size": lf.stat().st_size}
+    try:
+        log["closed"], log["bytes"] = zstd_closed(lf)
+    except Exception as e:  # noqa: BLE001
+        log["closed"], log["error"] = False, repr(e)
+    try:
+        from gallia.log import PenlogReader
+
+        n = 0
+        found = False
+        hook_reports: list[str] = []
+        mk = marker(spec)
+        with PenlogReader(lf) as r:
+            total = len(r)
+            for rec in r.records():
+                n += 1
+                if rec.data == mk:
+                    found = True
+                if rec.priority <= 4 and "hook" in rec.data:
+                    hook_reports.append(rec.data[:200])
+        log.update({"records": n, "lines": total, "marker": found, "hook_reports": hook_reports})
+    except Exception as e:  # noqa: BLE001
+        log["read_error"] = f"{type(e).__name__}: {e}"[:300]
+    return log
 
 
 def other_writer_lock(db: Path) -> tuple[sqlite3.Connection | None, str | None]:
@@ -745,6 +894,11 @@ def execute(spec: dict[str, Any], rundir: Path, timeout: float = CHILD_TIMEOUT) 
     obs["lock_at_fault"] = (_read(out / "lock-at-fault") or "").strip() or None
     obs["lock_after_entry_point"] = (_read(out / "lock-after-entry-point") or "").strip() or None
     obs["ecu_answers"] = int(_read(out / "ecu-answers") or 0)
+    obs["ecu_rdbi_answers"] = int(_read(out / "ecu-rdbi-answers") or 0)
+    try:
+        obs["ecu_faulted"] = [int(x) for x in (_read(out / "ecu-faulted") or "0 0").split()]
+    except ValueError:
+        obs["ecu_faulted"] = [0, 0]
     for v in ("pre", "post"):
         raw = None
         try:
@@ -785,30 +939,14 @@ def execute(spec: dict[str, Any], rundir: Path, timeout: float = CHILD_TIMEOUT) 
         obs["meta_raw"] = _read(ad / "META.json")
         lf = ad / "log.json.zst"
         if lf.exists():
-            log: dict[str, Any] = {"size": lf.stat().st_size}
-            try:
-                log["closed"], log["bytes"] = zstd_closed(lf)
-            except Exception as e:  # noqa: BLE001
-                log["closed"], log["error"] = False, repr(e)
-            try:
-                from gallia.log import PenlogReader
-
-                n = 0
-                found = False
-                hook_reports: list[str] = []
-                mk = marker(spec)
-                with PenlogReader(lf) as r:
-                    total = len(r)
-                    for rec in r.records():
-                        n += 1
-                        if rec.data == mk:
-                            found = True
-                        if rec.priority <= 4 and "hook" in rec.data:
-                            hook_reports.append(rec.data[:200])
-                log.update({"records": n, "lines": total, "marker": found, "hook_reports": hook_reports})
-            except Exception as e:  # noqa: BLE001
-                log["read_error"] = f"{type(e).__name__}: {e}"[:300]
-            obs["log"] = log
+            obs["log"] = analyze_log(lf, spec)
+    # ---- what the child saw and copied when entry_point() ended (None: the child never got that far)
+    obs["ep_end"] = json.loads(_read(out / "entry-point-end.json") or "null")
+    obs["ep_end_error"] = _read(out / "entry-point-end.error")
+    obs["log_at_ep_end"] = None
+    snap = out / "log-at-entry-point-end.zst"
+    if snap.exists():
+        obs["log_at_ep_end"] = analyze_log(snap, spec)
     # ---- database
     obs["run_meta"] = None
     if paths["db"].exists():
@@ -842,6 +980,8 @@ def expected_codes(spec: dict[str, Any]) -> set[int]:
         return {1, 70}
     if e in ("connerr", "udserr"):
         return {74} if spec["kind"] in ("scanner", "uds") else {70, 74}
+    if e in TDPROPS_EXITS:
+        return {74}  # MissingResponse (UDSException) / ConnectionError out of UDSScanner.teardown
     if e == "runtime":
         return {70}
     return {130}  # kbdint, sigint
@@ -870,6 +1010,9 @@ def judge(spec: dict[str, Any], obs: dict[str, Any], rundir: Path, reach: Any = 
     endclass = {"return": "return", "exit0": "sys-exit", "exit1": "sys-exit", "exit3": "sys-exit", "exitstr": "sys-exit",
                 "connerr": "exception", "udserr": "exception", "runtime": "exception", "kbdint": "raised-KeyboardInterrupt"}
     cond = "real-sigint" if real_sigint else endclass.get(ex, "sigint-not-delivered")
+    tdprops = spec["point"] == TDPROPS_POINT
+    if tdprops:
+        cond = TDPROPS_COND
     rc = obs["rc"]
     events = obs["events"]
     want = expected_codes(spec)
@@ -906,10 +1049,23 @@ def judge(spec: dict[str, Any], obs: dict[str, Any], rundir: Path, reach: Any = 
             hit("contend.finished_only_after_release" if c.get("child_exited_while_locked_after") is None else "contend.finished_while_locked")
 
     hit("fault.point_reached", 1 if "fault" in events else 0)
+    # ---- ECU failing for the properties read of UDSScanner.teardown: did a properties request really meet the failing ECU?
+    tdprops_hit = False
+    if tdprops:
+        tdprops_hit = "fault" in events and "teardown_super_enter" in events and obs["ecu_faulted"][1] >= 1
+        hit(f"tdprops.exercised.{ex}" if tdprops_hit else "tdprops.not_exercised")
+        if not tdprops_hit:
+            want = want | {0}  # nothing asked the failing ECU for anything: a clean end is as good as the error
     # ---- process exit status
     ok_rc = want | ({-signal.SIGINT} if real_sigint else set())
     if rc not in ok_rc:
-        v.append((f"exit/code-differs/{ex if not real_sigint else cond}", f"process ended with {rc}, documented mapping says {sorted(want)} for {ex} in a {kind} command"))
+        if tdprops:
+            v.append((f"exit/code-differs/{cond}", f"process ended with {rc}, documented mapping says {sorted(want)}: the ECU "
+                      + ("stopped answering" if ex == "ecusilent" else "closed the connection") + f" when UDSScanner.teardown read the ECU properties "
+                      f"({obs['ecu_faulted'][1]} ReadDataByIdentifier request(s) met the failing ECU; timeout {spec.get('uds_timeout')} s, {spec.get('uds_retries')} retries), "
+                      "an expected UDS/connection error raised in teardown"))
+        else:
+            v.append((f"exit/code-differs/{ex if not real_sigint else cond}", f"process ended with {rc}, documented mapping says {sorted(want)} for {ex} in a {kind} command"))
     eff = 130 if real_sigint else rc  # the code every record has to carry
 
     # ---- hooks: ran, environment contract, failing hook reported and harmless
@@ -972,6 +1128,8 @@ def judge(spec: dict[str, Any], obs: dict[str, Any], rundir: Path, reach: Any = 
         v.append(("meta/artifacts-without-config", "no artifacts dir configured but one was created"))
     if meta is not None:
         hit("meta.parsed")
+        if tdprops_hit:
+            hit("tdprops.meta_checked")
         if meta["exit_code"] != eff:
             v.append((f"meta/exit-code-differs/{cond}", f"META.json says exit_code={meta['exit_code']!r}, the process ended with {rc}" + (" (SIGINT; must be 130)" if real_sigint else "")))
         try:
@@ -1008,6 +1166,48 @@ def judge(spec: dict[str, Any], obs: dict[str, Any], rundir: Path, reach: Any = 
                         hit("log.marker_found")
                     else:
                         v.append((f"log/marker-missing/{cond}", "the last record logged before the fault is not in the log file"))
+    # ---- log file as the command left it: the copy the child took when entry_point() returned or raised. (After the process
+    # ended the file can look fine only because the interpreter's logging.shutdown() closed a handler the command left open.)
+    epe = obs.get("ep_end")
+    if epe is not None:
+        have = {k for k, _ in v}
+
+        def add(key: str, what: str) -> None:
+            if key not in have:  # the same mechanism may already have been seen on the file after exit
+                v.append((key, what))
+
+        how = "raised" if obs["returned"] is None else "returned"
+        hit("log.handlers_checked_at_entry_point_end")
+        not_closed = False
+        if spec["art"] and len(obs["artifact_dirs"]) == 1:
+            hit("log.checked_at_entry_point_end")
+            hit(f"log.checked_at_entry_point_end.{cond}")
+            ls = obs["log_at_ep_end"]
+            if ls is None:
+                if obs["log"] is not None:
+                    add(f"log/missing/{cond}", f"log.json.zst did not exist yet when entry_point() {how}")
+            elif not ls.get("closed"):
+                not_closed = True
+                add(f"log/not-closed/{cond}", f"log.json.zst is not a complete zstd stream when entry_point() has {how} ({ls.get('size')} bytes on disk, "
+                    f"{epe.get('log_file_handlers_left')} log file handler(s) still open, {epe.get('queue_handlers_on_gallia')} queue handler(s) still attached to the 'gallia' logger); "
+                    f"after the process ended the file has {(obs['log'] or {}).get('size')} bytes and is "
+                    + ("complete, but only because the interpreter's logging.shutdown() closed the handler at exit" if (obs["log"] or {}).get("closed") else "still incomplete"))
+            elif "read_error" in ls:
+                add(f"log/unreadable/{cond}", f"PenlogReader fails on the log file as it is when entry_point() has {how}: {ls['read_error']}")
+            else:
+                hit("log.decoded_at_entry_point_end")
+                if ls["records"] != ls["lines"] or ls["records"] == 0:
+                    add("log/record-count", f"{ls['records']} records decoded from {ls['lines']} lines (log file as it is when entry_point() has {how})")
+                if "fault" in events:
+                    if ls["marker"]:
+                        hit("log.marker_found_at_entry_point_end")
+                    else:
+                        add(f"log/marker-missing/{cond}", f"the last record logged before the fault is not in the log file when entry_point() has {how}")
+        if not not_closed and (epe.get("log_file_handlers_left") or epe.get("queue_handlers_on_gallia")):
+            add(f"log/handler-left-attached/{cond}", f"entry_point() has {how} with {epe.get('log_file_handlers_left')} log file handler(s) in log_file_handlers and "
+                f"{epe.get('queue_handlers_on_gallia')} queue handler(s) still attached to the 'gallia' logger (a later run in the same process would write into this run's log)")
+    elif obs.get("ep_end_error"):
+        hit("harness.entry_point_end_observation_failed")
 
     # ---- database
     if spec["db"]:
@@ -1016,6 +1216,8 @@ def judge(spec: dict[str, Any], obs: dict[str, Any], rundir: Path, reach: Any = 
             v.append((f"run_meta/row-count/{cond}", f"run_meta rows: {None if rows is None else len(rows)} ({obs.get('run_meta_error', '')})"))
         else:
             hit("run_meta.rows_read")
+            if tdprops_hit:
+                hit("tdprops.run_meta_checked")
             row = rows[0]
             reached = "teardown_super_done" in events and kind in ("scanner", "uds")
             where = "scanner-teardown" if reached else ("scanner-teardown-entered" if "teardown_super_enter" in events and kind != "script" else "other")
@@ -1072,7 +1274,8 @@ def hang_blame(obs: dict[str, Any]) -> str:
 
 def summarize(obs: dict[str, Any]) -> dict[str, Any]:
     s = {k: obs.get(k) for k in ("rc", "wall", "events", "returned", "escaped", "sigint_delivered", "watchdog", "lock_at_fault",
-                                 "lock_after_entry_point", "lock_after_exit", "artifact_dirs", "run_meta", "log", "hook_pre_lock", "hook_post_lock", "contend", "run_meta_other_writer_rows")}
+                                 "lock_after_entry_point", "lock_after_exit", "artifact_dirs", "run_meta", "log", "hook_pre_lock", "hook_post_lock", "contend", "run_meta_other_writer_rows",
+                                 "ep_end", "ep_end_error", "log_at_ep_end", "ecu_answers", "ecu_rdbi_answers", "ecu_faulted")}
     s["meta"] = (obs.get("meta_raw") or "")[:600] or None
     s["stderr_tail"] = obs.get("stderr", "")[-1500:]
     for hv in ("pre", "post"):
@@ -1084,7 +1287,8 @@ def summarize(obs: dict[str, Any]) -> dict[str, Any]:
 
 
 def case_ident(spec: dict[str, Any]) -> tuple[Any, ...]:
-    return tuple(spec[f] for f in FACTORS) + (("contend", spec["contend"]) if spec.get("contend") else ())
+    return (tuple(spec[f] for f in FACTORS) + (("contend", spec["contend"]) if spec.get("contend") else ())
+            + (("uds", spec["uds_timeout"], spec.get("uds_retries")) if spec.get("uds_timeout") is not None else ()))
 
 
 def process_case(ctx: Any, spec: dict[str, Any], base: Path, lock: Any) -> dict[str, Any] | None:
@@ -1141,6 +1345,8 @@ def process_case(ctx: Any, spec: dict[str, Any], base: Path, lock: Any) -> dict[
                 ctx.reach("sigint.died_by_signal")
         if obs["ecu_answers"]:
             ctx.reach("ecu.requests_answered")
+        if obs["ecu_rdbi_answers"]:
+            ctx.reach("ecu.properties_requests_answered")
         found = judge(spec, obs, rundir, ctx.reach)
         summ = summarize(obs)
         meta_code = None
